@@ -84,11 +84,6 @@ class C18(Prop):
 WRAP_FAMS = ("slice", "secbytes", "byrva", "byname", "hdrw", "derva", "derva_copy", "derva_into", "derva_slice", "derva_slice_s", "derva_cstr", "jsonsub", "relocs", "exports", "export", "imports", "iat", "rich", "res", "debug", "tls", "loadcfg", "exc", "security", "scan", "finds", "pat_exec")
 
 
-# top-level members of the serialized document that Model/JsonDirs.lean models whole: `jsonsub <k> <field>`
-# prints the member in canonical text on both sides (harness: read back from the real serde_json text)
-JSON_FIELDS = ["rich_structure", "exports", "imports", "base_relocs", "debug", "tls", "load_config", "security", "resources"]
-
-
 def gen_c19(rng, tier):
     """every wrapper-capable operation through wf/wv and through the specific constructor on the same image"""
     cases = []
@@ -120,7 +115,7 @@ def gen_c19(rng, tier):
         for mode, buf in (("f", data), ("v", view if view is not None else data)):
             ks, kw = "%s%d" % (mode, bits), "w" + mode
             case = [gen_img.img_line(rng, buf), "from_bytes " + kw, "from_bytes " + ks, "from_bytes %s%d" % (mode, 96 - bits)]
-            ops = ["hdrw %s", "jsonsub %s", "json %s", "relocs %s dump"] + ["jsonsub %%s %s" % f for f in JSON_FIELDS]
+            ops = ["hdrw %s", "jsonsub %s", "json %s", "relocs %s dump"] + C19.json_ops()
             rvas = [0, 1, 0x1000, 0x1004, 0x2000, rng.randrange(0, 0x4000)] + ([(s.va + rng.randrange(0, max(s.rs, 1))) & 0xFFFFFFFF for s in pe.sections] if pe else [rng.randrange(0, max(len(buf), 1)) for _ in range(4)])
             for r in rvas:
                 ops += ["slice %%s 0x%x %d %d" % (r, rng.choice([0, 1, 8]), rng.choice([1, 2, 4])), "derva_copy %%s u32 0x%x" % r, "derva_cstr %%s 0x%x" % r,
@@ -131,6 +126,39 @@ def gen_c19(rng, tier):
             for o in ops:
                 case.append(o % ks); case.append(o % kw)
             cases.append(case)
+    # the serializer on the images of the directory modules' own generators (export / import / debug / tls /
+    # load config / security shapes, shared and self-referential resource trees, Rich headers): every modelled
+    # member of the document, through the constructors the case itself uses and through the wrapper
+    harvested = []
+    for pid in ("C08", "C09", "C15", "C12", "C16"):
+        p = REGISTRY.get(pid)
+        for g in (p.gens if p else []):
+            for c in g(rng, tier):
+                img, kinds = None, set()
+                for l in c:
+                    if l.startswith("img "):
+                        if img and kinds:
+                            harvested.append((img, sorted(kinds)))
+                        img, kinds = l, set()
+                    elif img:
+                        w = l.split(" ")
+                        if len(w) >= 2 and re.match(r"(f32|f64|v32|v64)(@\w+)?$", w[1]):
+                            kinds.add(w[1])
+                if img and kinds:
+                    harvested.append((img, sorted(kinds)))
+    lim = 250 if tier == "quick" else 5000
+    if len(harvested) > lim:
+        harvested = [harvested[i] for i in sorted(rng.sample(range(len(harvested)), lim))]
+    for img, kinds in harvested:
+        case = [img]
+        for k in kinds:
+            kw = "w" + k[0]
+            case.append("json " + k)
+            for o in C19.json_ops():
+                case.append(o % k)
+                if "@" not in k:
+                    case.append(o % kw)
+        cases.append(case)
     return cases
 
 
@@ -138,7 +166,15 @@ class C19(Prop):
     named_errors = set()                  # error kinds: wrapper vs specific API are compared with each other exactly
     pid = "C19"
     title = "wrappers and JSON"
-    thm_modules = ["PeliteModel.Thm.C19", "PeliteModel.Thm.C19Wrap"]
+    thm_modules = ["PeliteModel.Thm.C19", "PeliteModel.Thm.C19Wrap", "PeliteModel.Thm.C19Json"]
+    # top-level members of the serialized document that Model/JsonDirs.lean models whole:
+    # `jsonsub <k> <field>` prints the member as canonical text on both sides (harness: read back from the
+    # real serde_json text, order and duplicate keys kept), `jsontext <k> <field>` its exact printed bytes
+    JSON_FIELDS = ["headers", "rich_structure", "exports", "imports", "base_relocs", "debug", "tls", "load_config", "security", "resources"]
+
+    @classmethod
+    def json_ops(cls):
+        return ["jsonsub %%s %s" % f for f in cls.JSON_FIELDS] + ["jsontext %%s %s" % f for f in cls.JSON_FIELDS]
 
     @property
     def gens(self):
@@ -185,7 +221,7 @@ class C19(Prop):
                     if (a == "ok " + b) != (sp == "ok " + b) and not (a.startswith("ok") and a != "ok " + b):
                         return {"kind": "spec", "text": "agnostic constructor %s answered %s but the %s-bit parser answered %s" % (kw, a, b, sp)}
         # wrapper vs specific API on the same image, same arguments
-        if len(w) >= 2 and fam in WRAP_FAMS:
+        if len(w) >= 2 and (fam in WRAP_FAMS or fam == "jsontext"):
             k = w[1]
             key = (fam,) + tuple(w[2:])
             if k in ("wf", "wv") or re.match(r"[fv](32|64)$", k):
@@ -198,6 +234,9 @@ class C19(Prop):
         return None
 
     def nontrivial(self, op, impl):
+        w = op.split(" ")
+        if w[0] in ("jsonsub", "jsontext") and len(w) == 3:
+            return impl.startswith("ok ") and impl not in ("ok null", "ok []", "ok 6e756c6c", "ok 5b5d")
         return impl.startswith("ok")
 
 
